@@ -29,10 +29,10 @@ QUEUE_ROLES = {
     ('POOL', 'operator='): {'operator=': 'defaulted assignment of the event pool'},
     ('DEFQ', 'stable_sort'): {'do_handle_deferred': 're-order by sequence tag, stable so that arrival order is kept'},
     ('DEFQ', 'for_each'): {'do_handle_deferred': 'reset the sequence tags'},
-    ('POOL', 'push_back'): {'do_defer_event': 'submitted / deferred occurrences are appended'},
+    ('POOL', 'push_back'): {'do_defer_event': 'submitted / deferred occurrences are appended', 'operator=': 'copy of the pool (field coverage: rule C15.fields)', 'event_pool_t': 'copy constructor of the pool'},
     ('POOL', 'push_front'): {'on_state_entry_completed': 'completion occurrences go before every other pending event'},
     ('POOL', 'erase'): {'do_process_event_pool': 'erase an occurrence already marked as processed'},
-    ('POOL', 'clear'): {'on_entry': 'history_impl: pool reset on (re-)entry of a submachine without history'},
+    ('POOL', 'clear'): {'on_entry': 'history_impl: pool reset on (re-)entry of a submachine without history', 'operator=': 'copy of the pool replaces the old content'},
 }
 
 def member_chain(f, nid, depth=0):
